@@ -20,4 +20,5 @@ META = {
 
 
 def run(ctx):
-    engine.run_rules(ctx, [ras.r08_1, ras.r08_2, ras.r08_34, ras.r01_4_close, ras.r08_5, ras.r08_7, c20.r20_3, c20.r20_4, ras.r01_10, ras.r01_11, ras.r01_12, ras.r08_6, ras.r08_8, ras.r10_4])
+    import props.c11 as c11
+    engine.run_rules(ctx, [ras.r08_1, ras.r08_2, ras.r08_34, ras.r01_4_close, ras.r08_5, ras.r08_7, c20.r20_3, c20.r20_4, ras.r01_10, ras.r01_11, ras.r01_12, ras.r08_6, ras.r08_8, ras.r10_4, ras.r01_15, c11.r11_9])
